@@ -303,6 +303,7 @@ func run(r *core.Run) {
 	}
 	if os.Getenv("VERIF_C18_FREERUN") != "" {
 		freeRun(r)
+		freeRunCorpus(r)
 		return
 	}
 	r.Rule("histories: all sequences of <= N jobs from the pool x 2 sharing modes, states = histories, transitions = jobs executed (each on the real interpreter); schedules: every interleaving of registry resolution threads (bounded then unbounded with pruning); non-trivial = history of >= 2 jobs / scenario with > 1 schedule")
@@ -321,17 +322,48 @@ func run(r *core.Run) {
 // parent: free running -race supplement (thorough tier; the race build is prepared by ./check)
 func parent(r *core.Run) {
 	bin := os.Getenv("VERIF_RACE_BIN")
-	if bin == "" || !r.Thorough() {
+	if bin == "" {
+		r.Extra("free_running_race_pass", map[string]any{"ran": false, "why": "no race build (./check builds it when the toolchain supports -race)"})
+		return
+	}
+	if o := os.Getenv("VERIF_ONLY"); o != "" && o != "freerun" {
 		return
 	}
 	cmd := exec.Command(bin, "--tier", "quick")
-	cmd.Env = append(os.Environ(), "VERIF_C18_FREERUN=1", "VERIF_SHARD=0/1", "VERIF_SHARD_OUT=/dev/null")
+	cmd.Env = append(os.Environ(), "VERIF_C18_FREERUN=1", "VERIF_SHARD=0/1", "VERIF_SHARD_OUT=/dev/null", "GORACE=halt_on_error=0 history_size=5")
 	out, err := cmd.CombinedOutput()
-	races := strings.Count(string(out), "WARNING: DATA RACE")
-	r.Extra("free_running_race_pass", map[string]any{"ran": true, "data_races_reported": races, "exit_error": fmt.Sprint(err)})
+	text := string(out)
+	races := strings.Count(text, "WARNING: DATA RACE")
+	njobs := 0
+	if i := strings.Index(text, "FREERUN-JOBS "); i >= 0 {
+		fmt.Sscanf(text[i:], "FREERUN-JOBS %d", &njobs)
+	}
+	done := strings.Contains(text, "FREERUN-DONE")
+	r.Extra("free_running_race_pass", map[string]any{"ran": true, "completed": done, "corpus_jobs_each_on_two_goroutines": njobs, "data_races_reported": races, "exit_error": fmt.Sprint(err)})
+	r.Count("freerun_concurrent_job_pairs", int64(njobs))
 	if races > 0 {
-		i := strings.Index(string(out), "WARNING: DATA RACE")
-		r.Violate("freerun:data-race", "Go race detector reported a data race in free running concurrent decode jobs: "+trunc(string(out[i:]), 1500), map[string]any{"kind": "freerun"})
+		i := strings.Index(text, "WARNING: DATA RACE")
+		// signature: the first fq frame of the report
+		site := "unknown"
+		for _, l := range strings.Split(text[i:], "\n") {
+			l = strings.TrimSpace(l)
+			if strings.HasPrefix(l, "github.com/wader/fq/") && !strings.Contains(l, "/internal/verif/") {
+				site = strings.TrimPrefix(l, "github.com/wader/fq/")
+				if k := strings.LastIndex(site, "("); k > 0 && strings.HasSuffix(site, ")") {
+					site = site[:k]
+				}
+				break
+			}
+		}
+		r.Violate("freerun:data-race:"+site, "Go race detector reported a data race between two concurrent decodes (free running pass): "+trunc(text[i:], 1500), map[string]any{"kind": "freerun"})
+	}
+	for _, l := range strings.Split(text, "\n") {
+		if strings.HasPrefix(l, "FREERUN-DIFF ") {
+			r.Violate("freerun:concurrent-result-differs", strings.TrimPrefix(l, "FREERUN-DIFF "), map[string]any{"kind": "freerun"})
+		}
+	}
+	if !done && races == 0 {
+		r.NotExhaustive("the free running race pass did not complete: " + trunc(text, 300))
 	}
 }
 
